@@ -13,15 +13,26 @@ ARadii == {1, 31}
 AProt  == {{}, {<<0,1>>}}
 \* reachability projection: one peer in bin 0, three in bin 1 (depth 1 is reachable with QSat 1)
 RPeers == {<<0,0>>, <<1,0>>, <<1,1>>, <<1,2>>}
+RProt  == {{}, {<<1,1>>}}
 ATargets == {<<1,0>>, <<SelfBin,0>>}
 
 \* --- function-level universes
-\* depth lemmas (QSat 2): 3+3+2+1 peers over 4 bins; thorough: 3+3+3+2, and a set reaching the deepest bins
+\* depth lemmas (QSat 2): 2+3+2 peers over 3 bins; thorough: 3+3+2+2 over 4 bins, and a set reaching the deepest bins
 FPeers == {<<0,0>>, <<0,5>>, <<1,0>>, <<1,2>>, <<1,3>>, <<2,1>>, <<2,8>>}
-TPeers == {<<0,0>>, <<0,5>>, <<0,15>>, <<1,0>>, <<1,2>>, <<1,3>>, <<2,1>>, <<2,8>>, <<2,9>>, <<3,0>>, <<3,7>>}
-DPeers == {<<0,0>>, <<0,5>>, <<1,0>>, <<1,2>>, <<2,1>>, <<29,8>>, <<30,3>>, <<30,4>>, <<31,0>>, <<31,7>>, <<31,15>>}
+TPeers == {<<0,0>>, <<0,5>>, <<0,15>>, <<1,0>>, <<1,2>>, <<1,3>>, <<2,1>>, <<2,8>>, <<3,0>>, <<3,7>>}
+DPeers == {<<0,0>>, <<0,5>>, <<1,0>>, <<1,2>>, <<29,8>>, <<30,3>>, <<30,4>>, <<31,0>>, <<31,7>>, <<31,15>>}
 FRadii == {0, 2, 31}
 DRadii == {1, 30, 31}
+\* MCKad.cfg (thorough): every event that touches the connection / depth state together
+NextF == \/ \E p \in Peers, f \in BOOLEAN : Connected(p, f)
+         \/ \E p \in All : Outbound(p)
+         \/ \E p \in Peers : Disconnected(p) \/ DisconnectForce(p)
+         \/ \E p \in Peers, b \in BOOLEAN : Reachable(p, b)
+         \/ \E r \in Radii : SetRadius(r)
+         \/ \E S \in ProtSets : RefreshProtect(S)
+         \/ \E p \in Peers : AddPeers({p})
+SpecF == Init /\ [][NextF]_vars
+
 \* closest-peer lemmas: ids chosen so that XOR order and numeric order of ids differ
 CPeers == {<<0,3>>, <<0,12>>, <<1,5>>, <<1,6>>, <<2,0>>, <<2,15>>}
 CTargets == {<<0,4>>, <<1,6>>, <<1,7>>, <<2,8>>, <<5,0>>, <<SelfBin,0>>}
